@@ -18,3 +18,4 @@ import DefconModel.Lemmas.Geom.Rotate
 import DefconModel.Lemmas.Geom.RevSeg
 import DefconModel.Lemmas.Geom.RevArea
 import DefconModel.Lemmas.Geom.CtrlBox
+import DefconModel.Lemmas.Geom.Straight
